@@ -129,6 +129,27 @@ def numbering(chk, sf, dprog, cfg):
                         a_i = paths.access_path(cb, c2[2][1])
                         item = ("arg", 2, cb.names.get(2))
                         vi_ok = a_v == (item, ".1") and a_i == (item, ".0")
+                item = ("arg", 2, cb.names.get(2))
+                if not vi_ok:
+                    # the per-variant work may live in a method: f(.., item.0, item.1, ..) whose body calls variant_index(<that variant>, <that position>)
+                    for bb2, t2 in cb.calls():
+                        tgt = t2.get("resolved") or t2.get("callee")
+                        if tgt not in dprog._bodies_raw or not mir.strip_generics(tgt).startswith(cd.D + "TypeInfoImpl::"):
+                            continue
+                        c2 = cb.call_term(t2, bb=bb2)
+                        pos = {}
+                        for k_, a_ in enumerate(c2[2]):
+                            ap_ = paths.access_path(cb, a_)
+                            if ap_ == (item, ".0"):
+                                pos["i"] = k_ + 1
+                            if ap_ == (item, ".1"):
+                                pos["v"] = k_ + 1
+                        hb = dprog.body(tgt)
+                        if len(pos) == 2 and hb is not None:
+                            for bb3, t3 in hb.calls():
+                                c3 = hb.call_term(t3, bb=bb3)
+                                if is_call(c3, cd.D + "utils::variant_index", nargs=2):
+                                    vi_ok = unref(c3[2][0]) == ("arg", pos["v"], hb.names.get(pos["v"])) and unref(c3[2][1]) == ("arg", pos["i"], hb.names.get(pos["i"]))
             ok = src_ok and vi_ok
             detail = "map(enumerate(%s)), variant_index(item.1, item.0): %s" % (why, vi_ok)
     if not ok:
@@ -252,8 +273,11 @@ def precedence(chk, sf, dprog, cfg):
     c = sf.fn("derive", "generate_variant_type")
     okt = False
     if len(c) == 1:
-        toks = " ".join(m["tokens"] for m in c[0][1]["body"]["macros"] if m["path"].endswith("quote"))
+        fns_ = [it for f_ in sf.files("derive") if f_["file"] == "lib.rs" for it in f_["items"] if it["kind"] in ("fn", "impl")]
+        bodies_ = [it["body"] for it in fns_ if it["kind"] == "fn"] + [ii["body"] for it in fns_ if it["kind"] == "impl" for ii in it.get("items", []) if ii.get("kind") == "fn" and "body" in ii]
+        toks = " ".join(m["tokens"] for bd_ in bodies_ for m in bd_.get("macros", []) if m["path"].endswith("quote"))
         okt = re.search(r"\. index \(# index as :: core :: primitive :: u8\)", toks) is not None
+        c = [(None, {"body": {"src": " ".join(bd_.get("src", "") for bd_ in bodies_)}})]
         okt = okt and re.search(r"\bindex = utils :: variant_index \(", c[0][1]["body"]["src"]) is not None
     chk.expect(okt, "R3.3", "scale-info-derive:index-emitted-as-u8", "derive/src/lib.rs", "template contains `.index(#index as ::core::primitive::u8)` fed by variant_index(v, i): %s" % okt, cfg)
     # codec side
@@ -285,8 +309,9 @@ def emission(chk, dprog, cfg):
     chk.floor("R3.4", n, 4, "member iteration sites: generate_fields, generate_variant_type, collect_types_to_bind (fields, variants)")
     # compact selection
     cl = [p for p in dprog._bodies_raw if mir.strip_generics(p).startswith(cd.D + "TypeInfoImpl::") and dprog.body(p).calls_to(cd.D + "utils::is_compact")]
+    CORP = 'the translation-validation corpus (R9.T: declarations with #[codec(compact)], #[codec(skip)], #[codec(index)] members: Compacts, SkippedFields, SkippedVariants, CodecIndex, MultiAttr*)'
     if len(cl) != 1:
-        chk.unrecognised("R3.4", "compact-selection", None, "expected one emitting body consulting is_compact, found %d" % len(cl), cfg)
+        chk.abstain("R3.4", "compact-selection", None, "expected one emitting body consulting is_compact, found %d" % len(cl), cfg, decided_by=CORP)
         return
     b = dprog.body(cl[0])
     ic = b.calls_to(cd.D + "utils::is_compact")
@@ -305,7 +330,12 @@ def emission(chk, dprog, cfg):
                   and b.dominates(zero, bb)]
             ok = recv_ok and len(pc) == 1 and b.dominates(true_t, pc[0][0]) and not b.dominates(zero, pc[0][0]) and len(pt) >= 1
             detail = "`compact` emitted under is_compact(f)==true: %s; `ty` on the other branch: %s" % (len(pc) == 1 and b.dominates(true_t, pc[0][0]), len(pt) >= 1)
-    chk.expect(ok, "R3.4", "compact-selection", b.where(), detail, cfg)
+    emits = [1 for bb, t in b.calls() if b.callee_name(t).endswith("push_ident") and unref(b.operand_term(t["args"][1])) in (("str", "compact"), ("str", "ty"))]
+    if not ok and not emits:
+        # the method name is not spelled through quote!'s push_ident here (e.g. an Ident built from a string): the cross-check does not know this shape
+        chk.abstain("R3.4", "compact-selection", b.where(), "the builder method is not emitted as a quoted identifier under a branch on is_compact", cfg, decided_by=CORP)
+    else:
+        chk.expect(ok, "R3.4", "compact-selection", b.where(), detail, cfg)
     rec = cd.recognisers(dprog).get(cd.D + "utils::is_compact")
     chk.expect(rec is not None and rec["keys"] == {"compact"} and rec["ns"] == {"codec"} and "Path" in rec["metas"], "R3.4", "is_compact-recogniser", "derive/src/utils.rs", "recognises %s" % (rec,), cfg)
     rec = cd.recognisers(dprog).get(cd.D + "utils::should_skip")
